@@ -30,7 +30,7 @@ class Interp:
         self.verifying = None                # qualname currently verified (its body is executed, not its contract)
         self.inline = set()                  # qualnames forced inline
         self.events = []                     # notes (assumed library facts used, etc.)
-        self.lib_log = set()
+        self.lib_log = set(); self.executed = set()
         self.call_hook = None
     # ------------------------------------------------------------------ path state
     def reset_path(self, decisions=None):
@@ -527,6 +527,7 @@ class Interp:
         env, _ = self.bind_args(f, args, kw)
         if isinstance(f.node, ast.Lambda): return self.ev(f.node.body, env, f.module)
         act = Activation(f); self.stack.append(act)
+        if f.qualname and not f.qualname.startswith("<"): self.executed.add(f.qualname)      # real bodies symbolically executed (target or inlined)
         try:
             self.exec_block(f.node.body, env, f.module)
             return None
